@@ -289,7 +289,7 @@ func (s *Sched) PassTransparent(name string) error {
 	if t == nil {
 		return nil
 	}
-	for !t.Exited() && t.pending.Transparent && t.pending.Kind == "unlocked" {
+	for !t.Exited() && t.pending.Transparent && (t.pending.Kind == "unlocked" || t.pending.Kind == "sysret") {
 		if err := s.grantWait(t); err != nil {
 			return err
 		}
